@@ -139,7 +139,7 @@ impl<'a> TransportFeedback<'a> {
         if parser::parse_count(self.data) != F::FCI_FORMAT {
             return Err(RtcpParseError::WrongImplementation);
         }
-        F::parse(&self.data[12..])
+        F::parse(fci_data(self.data)?)
     }
 }
 
@@ -172,6 +172,18 @@ impl<'a> TransportFeedbackBuilder<'a> {
         self.padding = padding;
         self
     }
+}
+
+/// The FCI part of a feedback packet: what follows the two SSRCs, without the trailing padding.
+fn fci_data(data: &[u8]) -> Result<&[u8], RtcpParseError> {
+    let padding = parser::parse_padding(data).unwrap_or(0) as usize;
+    if TransportFeedback::MIN_PACKET_LEN + padding > data.len() {
+        return Err(RtcpParseError::Truncated {
+            expected: TransportFeedback::MIN_PACKET_LEN + padding,
+            actual: data.len(),
+        });
+    }
+    Ok(&data[TransportFeedback::MIN_PACKET_LEN..data.len() - padding])
 }
 
 #[inline]
@@ -335,7 +347,7 @@ impl<'a> PayloadFeedback<'a> {
         if parser::parse_count(self.data) != F::FCI_FORMAT {
             return Err(RtcpParseError::WrongImplementation);
         }
-        F::parse(&self.data[12..])
+        F::parse(fci_data(self.data)?)
     }
 }
 
